@@ -1,1 +1,69 @@
+//! One integer decides everything: SplitMix64 streams derived from VERIF_SEED.
 
+#[derive(Clone, Debug)]
+pub struct Rng {
+    state: u64,
+}
+
+pub fn splitmix(mut z: u64) -> u64 {
+    z = z.wrapping_add(0x9e3779b97f4a7c15);
+    z = (z ^ (z >> 30)).wrapping_mul(0xbf58476d1ce4e5b9);
+    z = (z ^ (z >> 27)).wrapping_mul(0x94d049bb133111eb);
+    z ^ (z >> 31)
+}
+
+/// Seed of run `i` of property `tag` under the batch seed.
+pub fn mix(seed: u64, tag: &str, i: u64) -> u64 {
+    let mut h = splitmix(seed ^ 0x5851f42d4c957f2d);
+    for b in tag.bytes() {
+        h = splitmix(h ^ b as u64);
+    }
+    splitmix(h ^ i.wrapping_mul(0xd1342543de82ef95))
+}
+
+impl Rng {
+    pub fn new(seed: u64) -> Rng {
+        Rng {
+            state: splitmix(seed),
+        }
+    }
+    pub fn next_u64(&mut self) -> u64 {
+        self.state = self.state.wrapping_add(0x9e3779b97f4a7c15);
+        let mut z = self.state;
+        z = (z ^ (z >> 30)).wrapping_mul(0xbf58476d1ce4e5b9);
+        z = (z ^ (z >> 27)).wrapping_mul(0x94d049bb133111eb);
+        z ^ (z >> 31)
+    }
+    /// Uniform in `0..n` (n > 0).
+    pub fn below(&mut self, n: usize) -> usize {
+        if n <= 1 {
+            return 0;
+        }
+        (self.next_u64() % n as u64) as usize
+    }
+    pub fn range(&mut self, lo: u64, hi_incl: u64) -> u64 {
+        lo + self.next_u64() % (hi_incl - lo + 1)
+    }
+    pub fn chance(&mut self, num: u64, den: u64) -> bool {
+        self.next_u64() % den < num
+    }
+    pub fn pick<'a, T>(&mut self, xs: &'a [T]) -> &'a T {
+        &xs[self.below(xs.len())]
+    }
+    pub fn shuffle<T>(&mut self, xs: &mut [T]) {
+        for i in (1..xs.len()).rev() {
+            let j = self.below(i + 1);
+            xs.swap(i, j);
+        }
+    }
+    pub fn fork(&mut self) -> Rng {
+        Rng::new(self.next_u64())
+    }
+}
+
+pub fn verif_seed() -> u64 {
+    std::env::var("VERIF_SEED")
+        .ok()
+        .and_then(|x| x.parse::<u64>().ok())
+        .unwrap_or(20260921)
+}
